@@ -743,6 +743,7 @@ func (ft *FuncTr) zeroFillObj(st *State, at *Term, objID *Term, elem types.Type)
 		body := Eq(Select(after, p), Ite(And(Not(IsNil(p)), Eq(PObjID(p), objID)), zero, Select(before, p)))
 		ft.assume(at, Forall([]Bound{{"zp", SPtr}}, body, []*Term{Select(after, p)}))
 		ft.h.setArr(st, n, after)
+		ft.h.noteFreshFrame(before, after, objID) // only the new object is written
 	}
 }
 
@@ -757,6 +758,13 @@ func (ft *FuncTr) makeSlice(st *State, at *Term, x *ssa.MakeSlice) error {
 	st.ghost["$next"] = Add(nx, IntLit(1))
 	ft.zeroFillObj(st, at, idc, elem)
 	ft.define(x, SlcMk(PObj(idc), IntLit(0), ln, cp))
+	// the new array is local (not reachable from older objects) until something that can carry a reference escapes
+	if ft.localArr == nil {
+		ft.localArr = map[string]*Term{}
+	}
+	if v := ft.vals[x].T; v != nil {
+		ft.localArr[v.S] = idc
+	}
 	return nil
 }
 
